@@ -24,7 +24,6 @@ import (
 	"math"
 	"net/http/httptest"
 	"net/url"
-	"os"
 	"sort"
 	"strconv"
 	"strings"
@@ -1763,9 +1762,7 @@ func runC14(args []string) {
 		g.summaryHistory(i, 3+g.p.intn(4), 0.2)
 	}
 	g.largeBodies(tier, false)
-	if os.Getenv("VERIF_C14_ABORTED_UPLOADS") == "1" {
-		// opt-in until proposed_fixes/C14-8 is in /repo: the unchanged engine acts on the part of a body that arrived
-		g.abortedUploads()
-	}
+	// uploads that break off in the middle (since /repo 09859a0 the engine refuses them: fix C14-8)
+	g.abortedUploads()
 	w.finish()
 }
